@@ -6,20 +6,22 @@ import seqxrun
 PROP = "C17"
 DEPTH = {"quick": 6, "thorough": 9}
 NODEDUP = {"quick": 6, "thorough": 7}
+NODEDUP_DUP = {"quick": 5, "thorough": 6}
 NSH = 16
 
 
 def run(tier):
     t = vlib.Timer()
     exe = seqxrun.build("c17", ["c17.cpp"])
-    args = [["--depth", DEPTH[tier] if i == 0 else 0, "--nodedup-depth", NODEDUP[tier], "--shard", i, "--nshards", NSH] for i in range(NSH)]
+    args = [["--depth", DEPTH[tier] if i == 0 else 0, "--nodedup-depth", NODEDUP[tier], "--nodedup-dup-depth", NODEDUP_DUP[tier], "--long", 1 if i == 1 else 0, "--shard", i, "--nshards", NSH] for i in range(NSH)]
     parts = seqxrun.run_shards(exe, args, timeout=3000)
     fails = [p for p in parts if "_crash" in p or "_timeout" in p]
     tot = seqxrun.merge([p for p in parts if p not in fails])
-    tot["bound"] = "BFS with state merging: call sequences <= %d over 17 calls; without merging: every sequence <= %d over the 12 non-null calls" % (DEPTH[tier], NODEDUP[tier])
+    tot["bound"] = ("BFS with state merging: call sequences <= %d over 20 calls; without merging: every sequence <= %d over the 12 non-null calls and every sequence <= %d over 15 calls (the 12 + re-registering the first "
+                    "attribute handler / filter / sink object); pipelines of 17-40 handlers built in 3 orders, checked after every insertion" % (DEPTH[tier], NODEDUP[tier], NODEDUP_DUP[tier]))
     return seqxrun.finish(
         PROP, tier, "model_checking", tot, t,
-        rule="BFS over all sequences of the 11 typed insert/clear calls + 5 null-argument calls + setFormatter() with the formatter object that is already installed up to the depth bound on the real "
+        rule="BFS over all sequences of the 11 typed insert/clear calls + 5 null-argument calls + setFormatter() with the formatter object that is already installed + typed appends of a handler object that is already registered (one object, several entries) up to the depth bound on the real "
              "SortedPipeline; state = handlers() as (class, rank in class); every (state, call) transition executed; "
              "distinct_nontrivial = distinct class arrangements observed; in addition every call sequence up to a smaller depth is "
              "executed on its own without state merging (guards against hidden state that handlers() does not show)",
@@ -33,7 +35,8 @@ def replay(path):
     case = json.load(open(path))["case"]
     names = ["appendAttrHandler", "appendFilter", "setFormatter", "appendSink", "appendPipeline", "clearAttrHandlers",
              "clearFilters", "clearFormatters", "clearSinks", "clearPipelines", "clear", "appendAttrHandler(null)",
-             "appendFilter(null)", "setFormatter(null)", "appendSink(null)", "appendPipeline(null)", "setFormatter(the installed one again)"]
+             "appendFilter(null)", "setFormatter(null)", "appendSink(null)", "appendPipeline(null)", "setFormatter(the installed one again)",
+             "appendAttrHandler(the first attribute handler object again)", "appendFilter(the first filter object again)", "appendSink(the first sink object again)"]
     ops = ",".join(str(names.index(n)) for n in case["history"])
     res = seqxrun.run_one(exe, ["--replay-ops", ops], timeout=60)
     print(json.dumps(res, indent=1))
